@@ -154,14 +154,9 @@ theorem ruleSteps_helpers {cx : Ctx} {U : List Use} {rn : List Name} (hU : UsesO
       unfold rulesUses ruleUses
       exact List.mem_flatMap.mpr ⟨r, by simp, List.mem_flatMap.mpr ⟨a, ha, hu⟩⟩
     have hh1 : HelpersOk cx.fx U st1.nts st1.prods := by
-      unfold ruleStep at h1
-      split at h1
-      · cases h1
-      · split at h1
-        · cases h1
-        · split at h1
-          · exact altSteps_helpers hU (hrn r (by simp)) hsr hh h1
-          · exact altSteps_helpers (st := { st with nextNt := st.nextNt + 1 }) hU (hrn r (by simp)) hsr hh h1
+      rcases ruleStep_ok h1 with ⟨nt, hf, h1⟩ | ⟨hf, h1⟩
+      · exact altSteps_helpers hU (hrn r (by simp)) hsr hh h1
+      · exact altSteps_helpers (st := { st with nextNt := st.nextNt + 1 }) hU (hrn r (by simp)) hsr hh h1
     exact ruleSteps_helpers hU (fun x hx => hrn x (by simp [hx]))
       (fun u hu => hs u (by
         unfold rulesUses at hu ⊢
